@@ -8,6 +8,11 @@
 //! after RESET undelivered bytes are discarded; after a connection close every pending and later
 //! call fails with a connection error; first close wins; spurious wake-ups are allowed; a second
 //! `send_data` before `poll_ready` completed is refused.
+//!
+//! Off by default: `NetInner::stage_conn_error` stages, for ONE stream and ONE local side, a
+//! connection-level error that the transport reports on that stream's operations only (a fault an
+//! adapter raises on one stream, or a connection loss that a stream observes before anybody else):
+//! the connection is not closed, no waker is touched, every other transport call goes on as before.
 
 pub mod apps;
 pub mod msggen;
@@ -84,6 +89,59 @@ pub struct Pipe {
     pub recv_end_seen: Option<&'static str>,
     /// writes attempted after FIN/RESET or other contract breaches by the *user* of the transport
     pub misuse: Vec<String>,
+    /// staged by a script: the RECEIVER's `poll_data` calls on this pipe report this connection error
+    pub inject_recv: Option<Injected>,
+    /// staged by a script: the SENDER's `send_data` / `poll_ready` / `poll_finish` / `poll_send` calls on
+    /// this pipe report this connection error
+    pub inject_send: Option<Injected>,
+}
+
+/// which half of a stream (seen from the side the error is staged for) reports the staged error
+#[derive(Clone, Copy, Debug, PartialEq, Eq, Hash)]
+pub enum InjectOn {
+    /// `RecvStream::poll_data`
+    Recv,
+    /// `SendStream::send_data` / `poll_ready` / `poll_finish`, `SendStreamUnframed::poll_send`
+    Send,
+}
+
+/// called by the transport on the calling thread, with no lock held, right before the FIRST report
+/// of a staged error (a monitor can make this a scheduling point of its own)
+#[derive(Clone)]
+pub struct InjectHook(pub Arc<dyn Fn() + Send + Sync>);
+
+impl std::fmt::Debug for InjectHook {
+    fn fmt(&self, f: &mut std::fmt::Formatter<'_>) -> std::fmt::Result {
+        f.write_str("InjectHook")
+    }
+}
+
+/// A connection-level error the transport reports on the operations of one stream half only. It
+/// stays (every later call on that half reports it again); the simulated connection stays open,
+/// nothing is woken, no other pending or later transport operation is affected.
+#[derive(Debug)]
+pub struct Injected {
+    pub error: ConnectionErrorIncoming,
+    /// how many calls have reported it
+    pub reports: u64,
+    pub before_first_report: Option<InjectHook>,
+}
+
+impl Injected {
+    /// Bookkeeping of one report: the error to return and, the first time, the hook to call after
+    /// the lock has been released.
+    fn report(&mut self) -> (ConnectionErrorIncoming, Option<InjectHook>) {
+        self.reports += 1;
+        let hook = if self.reports == 1 { self.before_first_report.clone() } else { None };
+        (self.error.clone(), hook)
+    }
+}
+
+fn inject_result(r: (ConnectionErrorIncoming, Option<InjectHook>)) -> StreamErrorIncoming {
+    if let Some(h) = r.1 {
+        (h.0)();
+    }
+    conn_err(r.0)
 }
 
 #[derive(Debug)]
@@ -617,6 +675,31 @@ impl NetInner {
         wake(&mut p.recv_waker);
     }
 
+    /// Stage a connection-level error that the transport reports to `side` on the operations of ONE
+    /// half of stream `id` (from the next call on): `InjectOn::Recv` = `side`'s `poll_data`,
+    /// `InjectOn::Send` = `side`'s `send_data` / `poll_ready` / `poll_finish` / `poll_send`. The
+    /// connection is NOT closed and NO waker is woken: pending accepts, reads and writes of every
+    /// other stream stay parked and go on working. A connection that is already dead for `side`
+    /// (closed, timed out) reports that first.
+    pub fn stage_conn_error(&mut self, side: usize, id: u64, on: InjectOn, error: ConnectionErrorIncoming, before_first_report: Option<InjectHook>) {
+        let inj = Injected { error, reports: 0, before_first_report };
+        let s = self.streams.get_mut(&id).expect("stream");
+        match on {
+            InjectOn::Recv => s.pipe_mut(1 - side).inject_recv = Some(inj),
+            InjectOn::Send => s.pipe_mut(side).inject_send = Some(inj),
+        }
+        self.stat("conn_errors_staged_on_one_stream");
+    }
+
+    /// how many calls reported the error staged with `stage_conn_error`
+    pub fn staged_reports(&self, side: usize, id: u64, on: InjectOn) -> u64 {
+        let s = &self.streams[&id];
+        match on {
+            InjectOn::Recv => s.pipe(1 - side).inject_recv.as_ref().map(|i| i.reports).unwrap_or(0),
+            InjectOn::Send => s.pipe(side).inject_send.as_ref().map(|i| i.reports).unwrap_or(0),
+        }
+    }
+
     // ----------------------------------------------------------------------------------------
     // raw peer operations (the harness plays this side directly; no h3 code involved)
 
@@ -827,6 +910,21 @@ impl<B: Buf> quic::Connection<B> for SimConn<B> {
     }
 }
 
+/// why a send-side call fails; `into_error` must be called with the net unlocked
+enum SendFail {
+    Now(StreamErrorIncoming),
+    Staged((ConnectionErrorIncoming, Option<InjectHook>)),
+}
+
+impl SendFail {
+    fn into_error(self) -> StreamErrorIncoming {
+        match self {
+            SendFail::Now(e) => e,
+            SendFail::Staged(r) => inject_result(r),
+        }
+    }
+}
+
 pub struct SimSend<B> {
     net: Net,
     side: usize,
@@ -844,15 +942,18 @@ impl<B: Buf> SimSend<B> {
         }
     }
 
-    fn check_errors(&self, n: &NetInner) -> Option<StreamErrorIncoming> {
+    fn check_errors(&self, n: &mut NetInner) -> Option<SendFail> {
         if let Some(e) = n.conn_error_for(self.side) {
-            return Some(conn_err(e));
+            return Some(SendFail::Now(conn_err(e)));
         }
-        let p = n.streams[&self.id].pipe(self.side);
+        let p = n.streams.get_mut(&self.id).unwrap().pipe_mut(self.side);
+        if let Some(inj) = p.inject_send.as_mut() {
+            return Some(SendFail::Staged(inj.report()));
+        }
         if p.stop_delivered {
-            return Some(StreamErrorIncoming::StreamTerminated {
+            return Some(SendFail::Now(StreamErrorIncoming::StreamTerminated {
                 error_code: p.stop_sent.unwrap_or(0),
-            });
+            }));
         }
         None
     }
@@ -860,9 +961,10 @@ impl<B: Buf> SimSend<B> {
     fn flush(&mut self, cx: &mut Context<'_>) -> Poll<Result<(), StreamErrorIncoming>> {
         let mut guard = lock(&self.net);
         let n = &mut *guard;
-        if let Some(e) = self.check_errors(n) {
+        if let Some(f) = self.check_errors(n) {
             self.writing = None;
-            return Poll::Ready(Err(e));
+            drop(guard);
+            return Poll::Ready(Err(f.into_error()));
         }
         let bp = n.cfg.backpressure;
         n.time += 1;
@@ -934,11 +1036,12 @@ impl<B: Buf> quic::SendStream<B> for SimSend<B> {
                 ),
             });
         }
-        {
-            let n = lock(&self.net);
-            if let Some(e) = self.check_errors(&n) {
-                return Err(e);
-            }
+        let fail = {
+            let mut n = lock(&self.net);
+            self.check_errors(&mut n)
+        };
+        if let Some(f) = fail {
+            return Err(f.into_error());
         }
         self.writing = Some(data.into());
         Ok(())
@@ -982,8 +1085,9 @@ impl<B: Buf> quic::SendStreamUnframed<B> for SimSend<B> {
         }
         let mut guard = lock(&self.net);
         let n = &mut *guard;
-        if let Some(e) = self.check_errors(n) {
-            return Poll::Ready(Err(e));
+        if let Some(f) = self.check_errors(n) {
+            drop(guard);
+            return Poll::Ready(Err(f.into_error()));
         }
         let bp = n.cfg.backpressure;
         n.time += 1;
@@ -1055,6 +1159,12 @@ impl quic::RecvStream for SimRecv {
             return Poll::Ready(Err(conn_err(e)));
         }
         let p = n.streams.get_mut(&self.id).unwrap().pipe_mut(1 - self.side);
+        if let Some(inj) = p.inject_recv.as_mut() {
+            // reported on this stream only: the connection stays open, nobody is woken
+            let r = inj.report();
+            drop(guard);
+            return Poll::Ready(Err(inject_result(r)));
+        }
         if p.reset_delivered {
             p.recv_end_seen = Some("reset");
             return Poll::Ready(Err(StreamErrorIncoming::StreamTerminated {
